@@ -223,7 +223,7 @@ def findZone (env : Env) : DName → Except (Option String) DName
       else findZone env rest
     | .noRecords _ => findZone env rest
     | .fail => .error none
-    | .missing => .error (some ("missing " ++ ".".intercalate (l :: rest) ++ " NS"))
+    | .missing => .error (some "missing")
 
 def findDs (env : Env) (sub : Query → Res) (name : DName) : FindDs :=
   match findZone env name with
@@ -428,7 +428,7 @@ def verifyMsg (env : Env) (sub : Query → Res) (d : Nat) (q : Query) (qid : Nat
 def verifyResponse (env : Env) (sub : Query → Res) (d : Nat) (q : Query) (r : Resp) : Res :=
   match r.out with
   | .fail => .errUp
-  | .missing => .abort ("missing " ++ ".".intercalate q.name ++ " " ++ toString q.qtype)
+  | .missing => .abort "missing"
   | .noRecords m => verifyMsg env sub d q r.qid { rcode := m.rcode, an := [], ns := m.ns, ad := [] }
   | .ok m => verifyMsg env sub d q r.qid m
 
@@ -488,6 +488,19 @@ def orphanDnskeyRrsig (trace : List (Query × UpOut)) : Bool :=
   trace.any fun e =>
     match e.2 with
     | .ok m | .noRecords m => orphanDnskeyRrsigIn m.an || orphanDnskeyRrsigIn m.ns || orphanDnskeyRrsigIn m.ad
+    | _ => false
+
+/-- `C07.UnsignedDnskeyRrsetSecure` / `C07.AnchorKeyForeignOwnerSecure` (on a validated section): a DNSKEY
+record is Secure although no RRSIG over its RRset is marked as the one that validated it -/
+def unsignedSecureDnskeyIn (sec : List Rec) : Bool :=
+  sec.any fun r => r.rtype == tDNSKEY && r.proof == .secure &&
+    !(sec.any fun s => s.isSig && s.covered == tDNSKEY && s.name == r.name && s.proof == .secure)
+
+/-- `C07.AnchorKeyForeignOwnerSecure`: a DNSKEY whose key is a trust anchor, under a non-root owner -/
+def anchorKeyForeignOwner (env : Env) (trace : List (Query × UpOut)) : Bool :=
+  trace.any fun e =>
+    match e.2 with
+    | .ok m | .noRecords m => m.all.any fun r => r.rtype == tDNSKEY && env.anchor r.rid && !r.name.isRoot
     | _ => false
 
 end HickoryVerif.Chain
